@@ -9,6 +9,7 @@ where
 {
     iter: Iter<'a, AnyVecPtr>,
     start: usize,
+    end: usize,
     original_len: usize,
     replace_with: ReplaceIter
 }
@@ -34,6 +35,7 @@ where
         Self{
             iter: Iter::new(any_vec_ptr, start, end),
             start,
+            end,
             original_len,
             replace_with
         }
@@ -69,7 +71,8 @@ where
         use any_vec_ptr::utils::*;
         let mut any_vec_ptr = self.iter.any_vec_ptr;
 
-        let elements_left = self.original_len - self.iter.end;
+        // `iter.end` moves with `next_back()`: use the range end.
+        let elements_left = self.original_len - self.end;
         let replace_end = self.start + self.replace_with.len();
         let new_len = replace_end + elements_left;
 
@@ -92,7 +95,7 @@ where
         unsafe{
             move_elements_at(
                 any_vec_ptr,
-                self.iter.end,
+                self.end,
                 replace_end,
                 elements_left
             );
